@@ -396,7 +396,15 @@ func c20SQLTemplate() ([]byte, error) {
 
 const (
 	c20StepSleep    = 20 * time.Second       // virtual time allowed for one message to settle
-	c20BatchCommit  = 500 * time.Millisecond // lnd's default db.batch-commit-interval
+	// The batch schedulers of the graph store commit lazily through a timer. With
+	// lnd's production interval (500 ms) a bubble freezes whenever two held updates
+	// of one channel are replayed concurrently: the first holds the gossiper's
+	// per-channel mutex while it waits for the (virtual) batch timer, the second
+	// waits for that sync.Mutex — which synctest does not count as durably blocked,
+	// so virtual time can never advance to fire the timer. An interval of 0 (what
+	// the repo's own test stores use) keeps the timer-driven path (time.AfterFunc)
+	// but needs no clock advance.
+	c20BatchCommit = 0 * time.Millisecond
 	c20TrickleDelay = 2 * time.Second
 )
 
@@ -921,13 +929,22 @@ func (in *c20Inner) observe() (lines []string, zombies []uint64, cacheDiff strin
 
 func (w *c20World) call(req c20Req) (*c20Obs, error) {
 	if w.closed {
-		return nil, errors.New("c20: world closed")
+		return nil, fmt.Errorf("%w: world closed", errC20Harness)
 	}
 	req.reply = make(chan c20Resp, 1)
+	// Real-time watchdog: never an oracle, only a guard against a bubble that can
+	// no longer make progress (e.g. a goroutine waiting for a sync.Mutex whose
+	// holder waits for virtual time). The execution is abandoned and counted as a
+	// harness error (exhaustive:false), never as a verdict.
+	watchdog := time.NewTimer(c20Watchdog)
+	defer watchdog.Stop()
 	select {
 	case w.reqs <- req:
 	case <-w.done:
-		return nil, fmt.Errorf("c20: bubble died: %s", w.fatal)
+		return nil, fmt.Errorf("%w: bubble died: %s", errC20Harness, w.fatal)
+	case <-watchdog.C:
+		w.closed = true
+		return nil, fmt.Errorf("%w: world did not accept a request within %s", errC20Harness, c20Watchdog)
 	}
 	select {
 	case r := <-req.reply:
@@ -936,9 +953,16 @@ func (w *c20World) call(req c20Req) (*c20Obs, error) {
 		}
 		return r.obs, nil
 	case <-w.done:
-		return nil, fmt.Errorf("c20: bubble died: %s", w.fatal)
+		return nil, fmt.Errorf("%w: bubble died: %s", errC20Harness, w.fatal)
+	case <-watchdog.C:
+		w.closed = true
+		return nil, fmt.Errorf("%w: step did not reach quiescence within %s of real time", errC20Harness, c20Watchdog)
 	}
 }
+
+const c20Watchdog = 3 * time.Minute
+
+var errC20Harness = errors.New("c20 harness error")
 
 // Deliver hands one decoded message to the gossiper as peer number `peer`.
 func (w *c20World) Deliver(msg lnwire.Message, peer int) (*c20Obs, error) {
@@ -953,11 +977,19 @@ func (w *c20World) Close() {
 		return
 	}
 	w.closed = true
+	t := time.NewTimer(c20Watchdog)
+	defer t.Stop()
 	select {
 	case w.reqs <- c20Req{kind: "close"}:
 	case <-w.done:
+		return
+	case <-t.C:
+		return
 	}
-	<-w.done
+	select {
+	case <-w.done:
+	case <-t.C:
+	}
 }
 
 func c20Hex(b []byte) string { return hex.EncodeToString(b) }
